@@ -6,6 +6,9 @@
  *   3 worker  create -> {signal_stop, join(t), join(-1), destroy} scripts x worker behaviours
  *   4 timer   platform_timer start / stop / restart / cleanup
  *   5 console real console worker reading a pipe on fd 0, main drains as process_io() does
+ *   6 pileup  posts pile up beyond the (small, harness-chosen) capacity of the notification pipe while
+ *             nobody waits; then stop + join of the posting worker / stop of the posting timer; then drain
+ *   7 event   platform_event_t: two waiters (timed / infinite) on one event, set() once
  *   9 abba    scheduler self-test: lock-order inversion that needs one preemption
  *
  * Two builds of this file:
@@ -44,12 +47,14 @@ static void fr_end (void) { }
 #define sched_track_fd(fd) ((void) 0)
 #define sched_point(l) ((void) 0)
 #define sched_steps() 0L
+#define sched_pending(t) "?"
 #define vx_obs(...) ((void) 0)          /* observations of a free run are timing dependent */
 #else
 #define SCHED 1
 #endif
 
 static int g_body, g_selftest, g_waits, g_variant;
+static long g_pipe_cap;         /* logical capacity (bytes) of pipes created inside the next scheduler session, 0 = kernel's */
 static unsigned g_vmask;
 static const char *g_bodyname = "?";
 static const char *volatile g_call = "-";       /* API call the main thread is inside (for stuck reports) */
@@ -98,6 +103,7 @@ static void begin (void) {
   cfg.max_steps = (int) vx_opt_long ("max-steps", 700);
   cfg.trace = vx_replaying ();
   cfg.on_stuck = on_stuck;
+  cfg.pipe_capacity = g_pipe_cap;
   g_call = "-";
   sched_begin (&cfg);
 }
@@ -314,7 +320,8 @@ static void body_queue (void) {
 enum { A_STOP, A_JT, A_JI, A_SLEEP, A_END };
 static const char *aname[] = { "signal_stop", "join(20)", "join(-1)", "sleep", "end" };
 typedef struct { int wv; int act[6]; } wscript;
-/* wv: 0 = worker polls should_stop until told to stop; 1 = returns at once; 2 = two rounds, then returns by itself */
+/* wv: 0 = worker polls should_stop until told to stop; 1 = returns at once; 2 = two rounds, then returns by itself;
+ *     3 = "interruptible sleep": while (!should_stop) { work; platform_event_wait(stop_event, 5 ms); } */
 static const wscript WS[] = {
   { 0, { A_STOP, A_JI, A_END } },
   { 0, { A_STOP, A_JT, A_END } },
@@ -328,6 +335,10 @@ static const wscript WS[] = {
   { 2, { A_JT, A_JT, A_END } },
   { 2, { A_SLEEP, A_STOP, A_JI, A_END } },
   { 2, { A_SLEEP, A_SLEEP, A_JT, A_END } },
+  { 3, { A_STOP, A_JI, A_END } },
+  { 3, { A_SLEEP, A_STOP, A_JI, A_END } },
+  { 3, { A_SLEEP, A_STOP, A_JT, A_JT, A_END } },
+  { 3, { A_SLEEP, A_SLEEP, A_STOP, A_STOP, A_JI, A_END } },
 };
 #define NWS ((int) (sizeof WS / sizeof WS[0]))
 static int w_cb, w_variant;
@@ -335,6 +346,13 @@ static void *wproc (void *ctx) {
   (void) ctx;
   async_worker_t *w = async_worker_current ();
   if (w_variant == 1) { __atomic_add_fetch (&w_cb, 1, __ATOMIC_SEQ_CST); return 0; }
+  if (w_variant == 3) {
+    while (!async_worker_should_stop (w)) {
+      __atomic_add_fetch (&w_cb, 1, __ATOMIC_SEQ_CST);
+      platform_event_wait (async_worker_get_stop_event (w), 5);
+    }
+    return 0;
+  }
   for (int i = 0; w_variant == 0 || i < 2; i++) {
     if (async_worker_should_stop (w)) break;
     __atomic_add_fetch (&w_cb, 1, __ATOMIC_SEQ_CST);
@@ -366,7 +384,7 @@ static void body_worker (void) {
     int r = -1;
     switch (a) {
     case A_STOP: g_call = "async_worker_signal_stop"; async_worker_signal_stop (w); stopped = 1; break;
-    case A_JT: g_call = stopped || s->wv ? "async_worker_join(20)" : "async_worker_join(20)-before-stop"; r = async_worker_join (w, 20); break;
+    case A_JT: g_call = stopped || (s->wv && s->wv != 3) ? "async_worker_join(20)" : "async_worker_join(20)-before-stop"; r = async_worker_join (w, 20); break;
     case A_JI: g_call = "async_worker_join(-1)"; r = async_worker_join (w, -1); break;
     case A_SLEEP: g_call = "sleep"; msleep (1); break;
     }
@@ -380,7 +398,7 @@ static void body_worker (void) {
     }
     if (a == A_JT && r == 0 && s->wv == 1 && sched_finished (1))
       failf ("C19:worker:join-false-but-thread-finished", "join(20) returned false although the worker had already returned");
-    if (a == A_JT && r == 1 && !stopped && s->wv == 0)
+    if (a == A_JT && r == 1 && !stopped && (s->wv == 0 || s->wv == 3))
       failf ("C19:worker:join-true-without-stop", "join(20) returned true for a worker that only ends when told to stop");
   }
   int c0 = __atomic_load_n (&w_cb, __ATOMIC_SEQ_CST);
@@ -560,6 +578,151 @@ static void body_console (void) {
   vx_count (4, (long) nd);
 }
 
+/* ====================================================================== body 6: posts pile up */
+#define PU_CAP_RECORDS 3
+#define PU_POSTS 5
+static int pu_rc[PU_POSTS], pu_done, pu_acc_wake;
+static void *pu_proc (void *ctx) {
+  (void) ctx;
+  async_worker_t *w = async_worker_current ();
+  for (int i = 0; i < PU_POSTS; i++) pu_rc[i] = async_runtime_post_completion (rt, KEY1, (uintptr_t) (i + 1));
+  __atomic_store_n (&pu_done, 1, __ATOMIC_SEQ_CST);
+  while (!async_worker_should_stop (w)) msleep (1);
+  return 0;
+}
+static void pu_tick (void) { if (async_runtime_wakeup (rt) == 0) __atomic_add_fetch (&pu_acc_wake, 1, __ATOMIC_SEQ_CST); __atomic_add_fetch (&t_ticks, 1, __ATOMIC_SEQ_CST); }
+static void body_pileup (void) {
+  g_bodyname = "pileup";
+  int v = choose_variant (3); g_variant = v;
+  g_pipe_cap = PU_CAP_RECORDS * 8;
+  memset (pu_rc, 0x7f, sizeof pu_rc); pu_done = 0; pu_acc_wake = 0; t_ticks = 0;
+  begin ();
+  g_pipe_cap = 0;
+  rt = async_runtime_init ();
+  if (!rt) { failf ("C19:harness:runtime-init", "async_runtime_init failed"); return; }
+  io_event_t ev[8];
+  if (v < 2) {                  /* a worker posts PU_POSTS completions, nobody waits; then stop + join */
+    g_call = "async_worker_create";
+    async_worker_t *w = async_worker_create (pu_proc, 0, 0);
+    g_call = "sleep"; msleep (1); msleep (1);
+    g_call = "async_worker_signal_stop"; async_worker_signal_stop (w);
+    int r;
+    if (v == 0) { g_call = "async_worker_join(50)-after-pile-up"; r = async_worker_join (w, 50); }
+    else { g_call = "async_worker_join(-1)-after-pile-up"; r = async_worker_join (w, -1); }
+    g_call = "-";
+    vx_obs ("pile-up variant %d: stop + join -> %s", v, r ? "true" : "false");
+    if (!r) failf ("C19:pileup:stop-join-times-out-after-posts-piled-up", "the worker posted %d completions into a notification pipe holding %d while nobody waited; signal_stop + join(50) returned false (worker is %s)",
+                   PU_POSTS, PU_CAP_RECORDS, sched_pending (1));
+    /* drain: everything that was accepted, once, in order */
+    int seq[16], ns = 0;
+    for (int round = 0; round < 8; round++) {
+      struct timeval tv = { 0, 0 };
+      g_call = "async_runtime_wait";
+      int n = async_runtime_wait (rt, ev, 8, &tv);
+      for (int i = 0; i < n && ns < 16; i++) { if (ev[i].completion_key != KEY1) failf ("C19:pileup:wrong-key", "key 0x%lx", (unsigned long) ev[i].completion_key); seq[ns++] = (int) ev[i].bytes_transferred; }
+      if (!r && round == 0) { g_call = "async_worker_join(-1)-after-drain"; r = async_worker_join (w, -1); }
+      if (n == 0 && r) break;
+    }
+    g_call = "-";
+    int acc[PU_POSTS], na = 0;
+    for (int i = 0; i < PU_POSTS; i++) if (pu_rc[i] == 0) acc[na++] = i + 1;
+    char a1[80] = "", a2[80] = ""; int k1 = 0, k2 = 0;
+    for (int i = 0; i < na; i++) k1 += snprintf (a1 + k1, sizeof a1 - (size_t) k1, "%d ", acc[i]);
+    for (int i = 0; i < ns; i++) k2 += snprintf (a2 + k2, sizeof a2 - (size_t) k2, "%d ", seq[i]);
+    vx_obs ("accepted: %s; delivered: %s", a1, a2);
+    if (g_selftest == 6 && ns) ns--;
+    if (na < PU_CAP_RECORDS) failf ("C19:pileup:post-refused-although-room", "only %d of %d posts accepted, the pipe holds %d", na, PU_POSTS, PU_CAP_RECORDS);
+    if (na != ns || memcmp (acc, seq, sizeof (int) * (size_t) na)) failf ("C19:pileup:accepted-not-delivered-exactly-once-in-order", "accepted {%s} delivered {%s}", a1, a2);
+    async_worker_destroy (w);
+    vx_count (0, ns);
+  } else {                      /* a timer whose callback wakes the loop (heart-beat) ticks while nobody waits; then stop */
+    platform_timer_t tm = { 0 }; timer_error_t e;
+    EXPECT (platform_timer_init (&tm), TIMER_OK);
+    EXPECT (platform_timer_start (&tm, 1000, pu_tick), TIMER_OK);
+    g_call = "sleep"; for (int i = 0; i < PU_CAP_RECORDS + 2; i++) msleep (2);
+    g_call = "platform_timer_stop-after-pile-up";
+    e = platform_timer_stop (&tm);
+    g_call = "-";
+    if (e != TIMER_OK) failf ("C19:timer:unexpected-result", "platform_timer_stop returned %d", (int) e);
+    if (SCHED && !sched_finished (1)) failf ("C19:timer:thread-alive-after-stop", "platform_timer_stop returned but the timer thread has not finished");
+    int wake = 0;
+    for (int round = 0; round < 8; round++) {
+      struct timeval tv = { 0, 0 };
+      int n = async_runtime_wait (rt, ev, 8, &tv);
+      for (int i = 0; i < n; i++) wake += (int) ev[i].bytes_transferred;
+      if (!n) break;
+    }
+    int accw = __atomic_load_n (&pu_acc_wake, __ATOMIC_SEQ_CST);
+    vx_obs ("pile-up variant 2: ticks %d, wake-ups accepted %d, delivered %d", ticks_now (), accw, wake);
+    if (wake != accw) failf ("C19:pileup:accepted-wakeups-not-delivered-exactly-once", "%d wake-ups accepted, %d delivered", accw, wake);
+    platform_timer_cleanup (&tm);
+    vx_count (3, ticks_now ());
+  }
+  async_runtime_deinit (rt); rt = 0;
+  sched_end ();
+}
+
+/* ====================================================================== body 7: events */
+typedef struct { int timeout; int r; long t_call, t_ret; pthread_t th; } ewaiter;
+static platform_event_t EV;
+static ewaiter EW[2];
+static int ew_returned;
+static void *ewait_fn (void *a) {
+  ewaiter *w = a;
+  w->t_call = stamp ();
+  w->r = platform_event_wait (&EV, w->timeout);
+  w->t_ret = stamp ();
+  __atomic_add_fetch (&ew_returned, 1, __ATOMIC_SEQ_CST);
+  return 0;
+}
+static void body_event (void) {
+  g_bodyname = "event";
+  /* manual-reset: timed+timed, timed+infinite, infinite+infinite (one set); auto-reset: infinite+infinite, two sets */
+  static const struct { int manual, t0, t1, sets; } EVV[] = { { 1, 8, 8, 1 }, { 1, 8, -1, 1 }, { 1, -1, -1, 1 }, { 0, -1, -1, 2 } };
+  int v = choose_variant (4); g_variant = v;
+  lclock = 0; ew_returned = 0;
+  begin ();
+  platform_event_init (&EV, EVV[v].manual, false);
+  EW[0].timeout = EVV[v].t0; EW[1].timeout = EVV[v].t1;
+  for (int i = 0; i < 2; i++) pthread_create (&EW[i].th, 0, ewait_fn, &EW[i]);
+  g_call = "sleep"; msleep (1);
+  long set_call = 0, set_ret = 0;
+  for (int i = 0; i < EVV[v].sets; i++) {
+    g_call = "platform_event_set";
+    long c = stamp (); platform_event_set (&EV); long r = stamp ();
+    if (!i) { set_call = c; set_ret = r; }
+    /* an auto-reset event is binary: the next set() only counts once the previous one was consumed */
+    if (i + 1 < EVV[v].sets) { g_call = "sleep"; while (__atomic_load_n (&ew_returned, __ATOMIC_SEQ_CST) < i + 1) msleep (1); }
+  }
+  g_call = "pthread_join(waiter)";
+  for (int i = 0; i < 2; i++) pthread_join (EW[i].th, 0);
+  g_call = "platform_event_wait(0)";
+  int still = platform_event_wait (&EV, 0);
+  platform_event_reset (&EV);
+  int after_reset = platform_event_wait (&EV, 0);
+  g_call = "-";
+  sched_end ();
+  vx_obs ("event variant %d (%s-reset, timeouts %d/%d, %d set): waiters -> %d %d ; still signalled afterwards %d ; after reset %d", v, EVV[v].manual ? "manual" : "auto",
+          EVV[v].t0, EVV[v].t1, EVV[v].sets, EW[0].r, EW[1].r, still, after_reset);
+  if (g_selftest == 7) still = !still;
+  for (int i = 0; i < 2; i++) {
+    if (EW[i].timeout < 0 && !EW[i].r) failf ("C19:event:infinite-wait-returned-false", "waiter %d", i);
+    if (EVV[v].manual && !EW[i].r && EW[i].t_call > set_ret)
+      failf ("C19:event:manual-reset-event-not-seen-by-later-waiter", "waiter %d began waiting after set() had returned and got false", i);
+  }
+  if (EVV[v].manual) {
+    if (!still) failf ("C19:event:manual-reset-event-consumed-by-a-wait", "one set() on a manual-reset event, waiters (timeouts %d, %d ms) returned %d, %d, and the event is no longer signalled (it must stay set until reset)",
+                       EVV[v].t0, EVV[v].t1, EW[0].r, EW[1].r);
+  } else {
+    int released = EW[0].r + EW[1].r;
+    if (released + still != EVV[v].sets)
+      failf ("C19:event:auto-reset-accounting", "%d set(), %d waiter(s) released, still signalled %d", EVV[v].sets, released, still);
+  }
+  if (after_reset) failf ("C19:event:signalled-after-reset", "platform_event_wait(0) is true right after platform_event_reset");
+  platform_event_destroy (&EV);
+  (void) set_call;
+}
+
 /* ====================================================================== body 9: scheduler self-test */
 static platform_mutex_t mA, mB;
 static void *abba_fn (void *a) {
@@ -587,22 +750,32 @@ static void body_abba (void) {
 static void body (void);
 #ifdef C19_FREE
 typedef struct { int body, variant; } elem;
-static elem EL[64];
+static elem EL[96];
 static int nEL;
 static long g_iters;
-static const char *bname (int b) { return b == 1 ? "post" : b == 2 ? "queue" : b == 3 ? "worker" : b == 4 ? "timer" : b == 5 ? "console" : "?"; }
+static const char *bname (int b) { return b == 1 ? "post" : b == 2 ? "queue" : b == 3 ? "worker" : b == 4 ? "timer" : b == 5 ? "console" : b == 6 ? "pileup" : b == 7 ? "event" : "?"; }
 static void describe (long i, char *buf, size_t len) { snprintf (buf, len, "free-running %s variant %d x %ld iterations", bname (EL[i].body), EL[i].variant, g_iters); }
 
 #include "c19_tsan.h"
 static off_t g_from;
 static void free_abort (void) {
-  vx_count (6, 1);
+  vx_count (7, 1);
   c19_tsan_what = g_bodyname; c19_tsan_variant = g_variant;
   scan_tsan (g_from);
   vx_child_exit (0);
 }
+/* a body that is natively stuck (possible only on a broken tree; the scheduler build decides those cases) must
+ * not cost vx's 20x retry: a watchdog thread ends the element after --watchdog-ms, keeping the TSan reports */
+static long g_watchdog_ms;
+static void *watchdog_fn (void *a) {
+  (void) a;
+  for (long ms = 0; ms < g_watchdog_ms; ms += 50) { struct timespec ts = { 0, 50000000L }; nanosleep (&ts, 0); }
+  free_abort ();
+  return 0;
+}
 static void elem_fn (long idx) {
   off_t from = g_from = lseek (2, 0, SEEK_END);
+  if (g_watchdog_ms > 0) { pthread_t wd; pthread_create (&wd, 0, watchdog_fn, 0); pthread_detach (wd); }
   g_body = EL[idx].body;
   for (long it = 0; it < g_iters; it++) {
     g_variant = EL[idx].variant;
@@ -624,6 +797,8 @@ static void body (void) {
   case 3: body_worker (); break;
   case 4: body_timer (); break;
   case 5: body_console (); break;
+  case 6: body_pileup (); break;
+  case 7: body_event (); break;
   case 9: body_abba (); break;
   default: failf ("C19:harness:no-such-body", "body %d", g_body);
   }
@@ -642,11 +817,13 @@ int main (int argc, char **argv) {
   vx_count_name (4, "console_bytes_delivered");
   vx_count_name (5, "free_running_iterations");
   vx_count_name (6, "free_running_oracle_hits_not_deciding");
+  vx_count_name (7, "free_running_elements_ended_by_watchdog");
   debug_set_log_with_date (0);
 #ifdef C19_FREE
   g_iters = vx_opt_long ("iters", 300);
-  static const int nv[6] = { 0, NPOSTSPEC, 3, NWS, 4, 2 };
-  for (int b = 1; b <= 5; b++) for (int v = 0; v < nv[b]; v++) {
+  g_watchdog_ms = vx_opt_long ("watchdog-ms", 0);
+  static const int nv[8] = { 0, NPOSTSPEC, 3, NWS, 4, 2, 3, 4 };
+  for (int b = 1; b <= 7; b++) for (int v = 0; v < nv[b]; v++) {
     /* worker script 2 (timed join before the worker was told to stop) really hangs when run natively
      * (finding C19:worker:hang:main-in-async_worker_join(20)-before-stop); script 4 covers the same accesses */
     if (b == 3 && v == 2 && !vx_opt_long ("with-hanging-script", 0)) continue;
